@@ -18,9 +18,11 @@ import (
 
 // wellKnownClientTimeout is the deadline the specification-independent part of
 // the world needs to know: a body slower than the client's patience is a
-// failed transfer. (The library's constant is 30 s; a pause is never chosen
-// within a second of it, so the model does not depend on the exact value.)
-const wellKnownClientTimeout = 30 * time.Second
+// failed transfer. The property names no timeout, so pauses are either a few
+// seconds or many minutes and the model only assumes that the client's
+// patience lies somewhere between (the library's constant is 30 s today; a
+// property-preserving change of it must not trip the check).
+const wellKnownClientTimeout = 60 * time.Second
 
 var (
 	dnsPool   = []string{"a.example", "b.example", "hs.a.example", "MiXed.example", "c-d.example.org"}
@@ -176,7 +178,7 @@ func genWK(t *sim.Tape, simple bool) wkCfg {
 		case 3:
 			c.reader = rdSlow
 			c.cutAt = t.Intn(1000)
-			c.delay = time.Duration(sim.Pick(t, []int{1, 10, 28, 32, 45, 120})) * time.Second
+			c.delay = time.Duration(sim.Pick(t, []int{1, 2, 4, 600, 1800, 3600})) * time.Second
 		}
 	}
 	return c
